@@ -111,18 +111,24 @@ func (pm *PeerManager) GetProcess(
 func (pm *PeerManager) getOrCreate(p peer.ID) *peerProcessInstance {
 	pqi, ok := pm.peerProcesses[p]
 	if !ok {
-		pq := pm.createPeerProcess(pm.ctx, p, pm.onQueueShutdown)
+		pqi = &peerProcessInstance{}
+		instance := pqi
+		pq := pm.createPeerProcess(pm.ctx, p, func(p peer.ID) { pm.onQueueShutdown(p, instance) })
 		if pprocess, ok := pq.(PeerProcess); ok {
 			pprocess.Startup()
 		}
-		pqi = &peerProcessInstance{0, pq}
+		pqi.process = pq
 		pm.peerProcesses[p] = pqi
 	}
 	return pqi
 }
 
-func (pm *PeerManager) onQueueShutdown(p peer.ID) {
+// onQueueShutdown removes a process that has shut down from the table, unless
+// the table already holds its successor
+func (pm *PeerManager) onQueueShutdown(p peer.ID, instance *peerProcessInstance) {
 	pm.peerProcessesLk.Lock()
 	defer pm.peerProcessesLk.Unlock()
-	delete(pm.peerProcesses, p)
+	if pm.peerProcesses[p] == instance {
+		delete(pm.peerProcesses, p)
+	}
 }
